@@ -52,6 +52,20 @@ func Run(r *ev.Run, prop string, rounds int, journal func(string)) {
 			}
 			journal(fmt.Sprintf("%s concurrent creators backend=%s round=%d", prop, be, round))
 			arrived.Store(0)
+			lostInsert := false
+			if t := w.DDB(); t != nil && round%4 == 1 {
+				lostInsert = true
+				// the first insert to reach the table is lost (service error / time-out before it got there) and does
+				// not return before one of the rivals has inserted its own key
+				before := t.Stored()
+				t.SetWriteFault([]string{"", "timeout-lost"}[(round/4)%2], func() {
+					for i := 0; i < 200000 && t.Stored() == before; i++ {
+						runtime.Gosched()
+					}
+				})
+				t.SetFail(0, 1)
+				r.Count("creator_rounds_with_a_lost_insert", 1)
+			}
 			outs := make([]out, procs)
 			facts := make([]*appencryption.SessionFactory, procs)
 			sess := make([]*appencryption.Session, procs)
@@ -75,13 +89,18 @@ func Run(r *ev.Run, prop string, rounds int, journal func(string)) {
 					d, err := s.Encrypt(ctx, pl)
 					if err == nil {
 						outs[i] = out{d, pl}
-					} else {
+					} else if !lostInsert {
+						// (with an injected insert failure an encrypt may legitimately report an error)
 						r.Violation("encrypt-failed-without-fault", fmt.Sprintf("concurrent creators (%s), round %d: process %d: %v", be, round, i, err), nil)
 					}
 				}()
 			}
 			close(start)
 			wg.Wait()
+			if t := w.DDB(); t != nil {
+				t.SetFail(0, 0)
+				t.SetWriteFault("", nil)
+			}
 			cold := w.Factory(cfg, svc, "prod")
 			cs, _ := cold.GetSession(part)
 			for i, o := range outs {
